@@ -240,6 +240,14 @@ func oracleC06(run *Run) {
 		}
 	}
 	checkSticky(run, "C06", who, rt)
+	// memory used to receive a frame never depends on the length its header claims
+	if run.AllocBytes > 0 {
+		received := uint64(e.Net.BytesRead())
+		limit := uint64(6<<20) + 4096*received + 512*run.Stats.Steps
+		if run.AllocBytes > limit {
+			run.fail("C06", "allocation-by-claimed-length", kind, "%s: the run allocated %d bytes after receiving %d bytes (bound %d = 6 MiB + 4096 per byte received + 512 per scheduler step for the harness)", who, run.AllocBytes, received, limit)
+		}
+	}
 }
 
 // overflows: does the claimed length, added to the bytes of the open message before it, exceed 2^63-1?
